@@ -162,7 +162,7 @@ V('A7_bytearray_via_frombuffer', ['C04'], 'bits.py', "            self._bitstore
 V('A7_mmap_writable', ['C04'], 'bits.py', "m = mmap.mmap(source.fileno(), 0, access=mmap.ACCESS_READ)", "m = mmap.mmap(source.fileno(), 0, access=mmap.ACCESS_COPY)", ['A7'])
 V('A5_bits_gets_mutator', ['C04', 'C20'], 'bits.py', "    def copy(self: TBits) -> TBits:\n        \"\"\"Return a copy of the bitstring.\"\"\"",
   "    def zero(self) -> None:\n        self._bitstore.setall(0)\n\n    def copy(self: TBits) -> TBits:\n        \"\"\"Return a copy of the bitstring.\"\"\"", ['A5'])
-V('A5_mul_in_place', ['C04', 'C01'], 'bits.py', "        s = self._copy()\n        s._imul(n)\n        return s", "        s = self\n        s._imul(n)\n        return s", ['A5'])
+V('A5_mul_in_place', ['C04'], 'bits.py', "        s = self._copy()\n        s._imul(n)\n        return s", "        s = self\n        s._imul(n)\n        return s", ['A5'])
 V('A5_invert_in_place', ['C04', 'C16'], 'bits.py', "        s = self._copy()\n        s._invert_all()\n        return s", "        self._invert_all()\n        return self", ['A5'])
 V('A6_tobitarray_internal', ['C04'], 'bits.py', "            return self._bitstore._bitarray.copy()", "            return self._bitstore._bitarray", ['A6'])
 V('A1_setbits_shares_again', ['C04'], 'bits.py', "        self._bitstore = bs._bitstore._copy()\n", "        self._bitstore = bs._bitstore\n", ['A1'])
@@ -184,3 +184,72 @@ S('A_S_inline_copy', ['C04'], 'bits.py', "        s_copy = self.__class__()\n   
   "        s_copy = self.__class__()\n        s_copy._bitstore = BitStore(self._bitstore._bitarray)\n        return s_copy")
 S('A_S_claim_unconditional', ['C04'], 'bitarray_.py', "        if self._bitstore.immutable:\n            self._bitstore = self._bitstore._copy()\n            self._bitstore.immutable = False\n\n    def copy(",
   "        if self._bitstore.immutable is True:\n            self._bitstore = self._bitstore._copy()\n            self._bitstore.immutable = False\n\n    def copy(")
+
+# ------------------------------------------------------------------ C06 / stream
+V('B1_delitem_no_pos_reset', ['C06'], 'bitstream.py', "        self._bitstore.__delitem__(key)\n        if len(self) != length_before:\n            self._pos = 0", "        self._bitstore.__delitem__(key)", ['B1', 'POST'])
+V('B1_prepend_no_pos_reset', ['C06'], 'bitstream.py', "        super().prepend(bs)\n        self._pos = 0", "        super().prepend(bs)", ['B1', 'POST'])
+V('B1_setitem_no_pos_reset', ['C06'], 'bitstream.py', "        super().__setitem__(key, value)\n        if len(self) != length_before:\n            self._pos = 0\n        return", "        super().__setitem__(key, value)\n        return", ['B1', 'POST'])
+V('B1_replace_no_pos_reset', ['C06'], 'bitstream.py', "        if len(self) != length_before:\n            self._pos = 0\n        return replacement_count", "        return replacement_count", ['B1', 'POST'])
+V('B1_setattr_override_removed', ['C06', 'C20'], 'bitstream.py', "            super().__setattr__(attribute, value)\n            if len(self) != length_before:\n                self._pos = 0", "            super().__setattr__(attribute, value)", ['B1'])
+V('B1_new_mutator_on_bitarray', ['C06'], 'bitarray_.py', "    def clear(self) -> None:\n        \"\"\"Remove all bits, reset to zero length.\"\"\"",
+  "    def truncate(self, n: int) -> None:\n        if n < 0:\n            raise ValueError\n        n = min(n, len(self))\n        self._truncateright(n)\n\n    def clear(self) -> None:\n        \"\"\"Remove all bits, reset to zero length.\"\"\"", ['B1'])
+V('RB_read_no_rollback', ['C06'], 'bitstream.py', "            self._pos = p\n            raise bitstring.ReadError(f\"Reading off end", "            raise bitstring.ReadError(f\"Reading off end", ['RB', 'POSW'])
+V('RB_peek_no_restore', ['C06'], 'bitstream.py', "        value = self.read(fmt)\n        self._pos = pos_before\n        return value", "        value = self.read(fmt)\n        return value", ['RB'])
+V('RB_peeklist_restore_wrong_var', ['C06'], 'bitstream.py', "        return_values = self.readlist(fmt, **kwargs)\n        self._pos = pos\n", "        return_values = self.readlist(fmt, **kwargs)\n        self._pos = len(self)\n", ['RB'])
+V('POSW_init_no_upper_check', ['C06', 'C20'], 'bitstream.py', "        if pos < 0 or pos > len(self._bitstore):\n            raise bitstring.CreationError(f\"Cannot set pos to {pos} when length is {len(self._bitstore)}.\")",
+  "        if pos < 0:\n            raise bitstring.CreationError(f\"Cannot set pos to {pos} when length is {len(self._bitstore)}.\")", ['POSW'])
+V('POSW_setbitpos_no_upper_check', ['C06', 'C20'], 'bitstream.py', "        if pos > len(self):\n            raise ValueError(\"Cannot seek past the end of the data.\")\n", "", ['POSW'])
+V('POSW_read_int_no_bound', ['C06'], 'bitstream.py', "            if fmt > len(self) - self._pos:\n                raise bitstring.ReadError(f\"Cannot read {fmt} bits, only {len(self) - self._pos} available.\")\n", "", ['POSW'])
+V('POSW_insert_unvalidated', ['C06', 'C03'], 'bitstream.py', "        if not 0 <= pos <= len(self):\n            raise ValueError(\"Invalid insert position.\")\n        self._insert(bs, pos)\n        self._pos = pos + len(bs)",
+  "        self._insert(bs, pos)\n        self._pos = pos + len(bs)", ['POSW'])
+V('POST_append_pos_zero', ['C06'], 'bitstream.py', "        self._append(bs)\n        self._pos = len(self)\n\n", "        self._append(bs)\n        self._pos = 0\n\n", ['POST'])
+V('POST_find_sets_end', ['C06'], 'bitstream.py', "        p = super().find(bs, start, end, bytealigned)\n        if p:\n            self._pos = p[0]", "        p = super().find(bs, start, end, bytealigned)\n        if p:\n            self._pos = len(self)", ['POST'])
+V('C_getitem_no_pos', ['C06', 'C16'], 'bitstream.py', "        bs._bitstore = self._bitstore.getslice_withstep(key)\n        bs._pos = 0\n        return bs", "        bs._bitstore = self._bitstore.getslice_withstep(key)\n        return bs", ['C', 'POST'])
+V('C_and_no_pos', ['C06', 'C16'], 'bitstream.py', "        s = Bits.__and__(self, bs)\n        s._pos = 0\n        return s", "        s = Bits.__and__(self, bs)\n        return s", ['C', 'POST'])
+V('C_bitstream_copy_no_pos', ['C06'], 'bitstream.py', "        s_copy = object.__new__(BitStream)\n        s_copy._pos = 0\n", "        s_copy = object.__new__(BitStream)\n", ['C', 'POST'])
+V('E7_single_length_no_check', ['C06', 'C20'], 'dtypes.py', "                    length = self.allowed_lengths.values[0]\n                    if len(bs) < start + length:\n                        raise bitstring.ReadError(f\"Needed a length of at least {length} bits, but only {len(bs) - start} bits were available.\")\n", "                    length = self.allowed_lengths.values[0]\n", ['E7'])
+V('J_hash_reads_pos', ['C06', 'C13'], 'bits.py', "            return hash((self.tobytes(), len(self)))", "            return hash((self.tobytes(), len(self), getattr(self, '_pos', 0) > len(self)))", ['J1', 'J2'])
+V('J_eq_reads_filename', ['C08', 'C13'], 'bits.py', "            return self._bitstore == Bits._create_from_bitstype(bs)._bitstore", "            return self._bitstore == Bits._create_from_bitstype(bs)._bitstore and not getattr(bs, '_filename', None)", ['J1', 'J2'])
+V('J_stream_eq_uses_pos', ['C06', 'C13'], 'bitstream.py', "    def __repr__(self) -> str:\n", "    def __eq__(self, bs: Any, /) -> bool:\n        return super().__eq__(bs) and self._pos == getattr(bs, '_pos', self._pos)\n\n    __hash__ = Bits.__hash__\n\n    def __repr__(self) -> str:\n", ['J2', 'HASH'])
+S('ST_S_guard_spelling', ['C06'], 'bitstream.py', "        if pos < 0:\n            raise ValueError(\"Bit position cannot be negative.\")\n        if pos > len(self):\n            raise ValueError(\"Cannot seek past the end of the data.\")",
+  "        if pos < 0 or pos > len(self):\n            raise ValueError(\"Bit position out of range.\")")
+S('ST_S_shift_lines', ['C06', 'C13', 'C16', 'C01', 'C07'], 'bitstream.py', fn=shift_lines)
+S('ST_S_rename_saved', ['C06'], 'bitstream.py', fn=rename_local('pos_before', 'saved_position'))
+
+# ------------------------------------------------------------------ C07 / C01 / C16 / C10 / C13 / C08 contracts
+V('E1_rfind_no_empty_guard', ['C07'], 'bits.py', "        if len(bs) == 0:\n            raise ValueError(\"Cannot find an empty bitstring.\")\n        p = self._rfind(bs, start, end, ba)", "        p = self._rfind(bs, start, end, ba)", ['E1'])
+V('E1_findall_no_empty_guard', ['C07'], 'bits.py', "        bs = Bits._create_from_bitstype(bs)\n        if len(bs) == 0:\n            raise ValueError(\"Cannot find an empty bitstring.\")\n        start, end = self._validate_slice(start, end)\n        ba = bitstring.options.bytealigned if bytealigned is None else bytealigned\n        return self._findall(",
+  "        bs = Bits._create_from_bitstype(bs)\n        start, end = self._validate_slice(start, end)\n        ba = bitstring.options.bytealigned if bytealigned is None else bytealigned\n        return self._findall(", ['E1'])
+V('E1_stream_replace_no_guard', ['C07'], 'bitstream.py', "        if len(old := Bits._create_from_bitstype(old)) == 0:\n            raise ValueError(\"Empty bitstring cannot be replaced.\")", "        old = Bits._create_from_bitstype(old)", ['E1'])
+V('E2_count_window_unvalidated', ['C07'], 'bits.py', "        start_, end_ = self._validate_slice(start, end)\n        if count is not None and count < 0:\n            raise ValueError(\"Cannot cut - count must be >= 0.\")",
+  "        start_, end_ = (0 if start is None else start), (len(self) if end is None else end)\n        if count is not None and count < 0:\n            raise ValueError(\"Cannot cut - count must be >= 0.\")", ['E2'])
+V('E2_startswith_unvalidated', ['C07'], 'bits.py', "        prefix = self._create_from_bitstype(prefix)\n        start, end = self._validate_slice(start, end)\n", "        prefix = self._create_from_bitstype(prefix)\n        start, end = start or 0, len(self) if end is None else end\n", ['E2'])
+V('E3_split_ignores_option', ['C07'], 'bits.py', "bytealigned_: bool = bitstring.options.bytealigned if bytealigned is None else bytealigned", "bytealigned_: bool = bool(bytealigned)", ['E3'])
+V('E3_find_raw_bytealigned', ['C07'], 'bits.py', "        ba = bitstring.options.bytealigned if bytealigned is None else bytealigned\n        p = self._find(bs, start, end, ba)", "        p = self._find(bs, start, end, bytealigned)", ['E3'])
+S('E3_S_replace_forwards_none', ['C07'], 'bitarray_.py', "        if bytealigned is None:\n            bytealigned = bitstring.options.bytealigned\n", "")
+S('E_S_guard_as_not', ['C07'], 'bits.py', "        if len(delimiter) == 0:\n            raise ValueError(\"split delimiter cannot be empty.\")", "        if not len(delimiter):\n            raise ValueError(\"split delimiter cannot be empty.\")")
+S('E_S_message_changes', ['C07'], 'bits.py', "raise ValueError(\"Cannot find an empty bitstring.\")\n        start, end = self._validate_slice(start, end)\n        ba = bitstring.options.bytealigned if bytealigned is None else bytealigned\n        p = self._find(", "raise ValueError(\"empty pattern\")\n        start, end = self._validate_slice(start, end)\n        ba = bitstring.options.bytealigned if bytealigned is None else bytealigned\n        p = self._find(")
+V('K_add_returns_operand_class', ['C01'], 'bits.py', "            s = self.__class__()\n            s._bitstore = bs._bitstore._copy()\n            s._addleft(self)", "            s = bs._copy()\n            s._addleft(self)", ['K'])
+V('K_getitem_always_bits', ['C01'], 'bits.py', "        bs = super().__new__(self.__class__)\n        bs._bitstore = self._bitstore.getslice_withstep(key)\n        return bs", "        bs = super().__new__(Bits)\n        bs._bitstore = self._bitstore.getslice_withstep(key)\n        return bs", ['K'])
+V('K_mul_zero_returns_bits', ['C01'], 'bits.py', "        if not n:\n            return self.__class__()\n        s = self._copy()\n        s._imul(n)", "        if not n:\n            return Bits()\n        s = self._copy()\n        s._imul(n)", ['K'])
+V('E6_mul_no_neg_guard', ['C01'], 'bits.py', "        if n < 0:\n            raise ValueError(\"Cannot multiply by a negative integer.\")\n        if not n:\n            return self.__class__()", "        if not n or n < 0:\n            return self.__class__()", ['E6'])
+V('E6_ilshift_no_neg_guard', ['C16'], 'bitarray_.py', "        if n < 0:\n            raise ValueError(\"Cannot shift by a negative amount.\")\n        if not len(self):\n            raise ValueError(\"Cannot shift an empty bitstring.\")\n        if not n:\n            return self\n        n = min(n, len(self))\n        return self._ilshift(n)",
+  "        if not len(self):\n            raise ValueError(\"Cannot shift an empty bitstring.\")\n        if not n:\n            return self\n        n = min(n, len(self))\n        return self._ilshift(n)", ['E6'])
+V('E6_invert_empty_no_error', ['C16'], 'bits.py', "        if len(self) == 0:\n            raise bitstring.Error(\"Cannot invert empty bitstring.\")\n        s = self._copy()", "        s = self._copy()", ['E6'])
+V('E6_rshift_empty_wrong_class', ['C16'], 'bits.py', "        if len(self) == 0:\n            raise ValueError(\"Cannot shift an empty bitstring.\")\n        if not n:\n            return self._copy()", "        if len(self) == 0:\n            raise bitstring.Error(\"Cannot shift an empty bitstring.\")\n        if not n:\n            return self._copy()", ['E6'])
+V('A5_lshift_in_place', ['C16', 'C04'], 'bits.py', "        s = self._absolute_slice(n, len(self))\n        s._addright(Bits(n))\n        return s", "        self._addright(Bits(n))\n        self._truncateleft(n)\n        return self", ['A5'])
+V('D2_getue_no_conversion', ['C10'], 'bits.py', "            return self._readue(0)\n        except bitstring.ReadError:\n            raise bitstring.InterpretError", "            return self._readue(0)\n        except bitstring.ReadError:\n            raise", ['D2'])
+V('D2_no_length_check', ['C10'], 'dtypes.py', "                if length != len(bs):\n                    raise ValueError\n                return x", "                return x", ['D2'])
+V('D2_readuie_outside_try', ['C10'], 'bits.py', "        codenum, pos = self._readuie(pos)\n        if not codenum:\n            return 0, pos\n        try:\n            return (-codenum, pos + 1) if self[pos] else (codenum, pos + 1)\n        except IndexError:\n            raise bitstring.ReadError(\"Read off end of bitstring trying to read code.\")",
+  "        codenum, pos = self._readuie(pos)\n        if not codenum:\n            return 0, pos\n        return (-codenum, pos + 1) if self[pos] else (codenum, pos + 1)", ['D2'])
+V('D2_readue_no_suffix_check', ['C10'], 'bits.py', "            if pos + leadingzeros + 1 > len(self):\n                raise bitstring.ReadError(\"Read off end of bitstring trying to read code.\")\n", "", ['D2'])
+V('D2_reader_no_translation', ['C10', 'C06'], 'dtypes.py', "                except bitstring.InterpretError:\n                    raise bitstring.ReadError", "                except bitstring.InterpretError:\n                    raise", ['D2'])
+V('D2_ue_accepts_negative', ['C10', 'C15'], 'bitstore_helpers.py', "    i = int(i)\n    if i < 0:\n        raise bitstring.CreationError(\"Cannot use negative initialiser for unsigned exponential-Golomb.\")\n    if i == 0:", "    i = abs(int(i))\n    if i == 0:", ['D2'])
+V('E9_setuie_no_lsb0_refusal', ['C10', 'C12'], 'bits.py', "        if bitstring.options.lsb0:\n            raise bitstring.CreationError(\"Exp-Golomb codes cannot be used in lsb0 mode.\")\n        self._bitstore = bitstore_helpers.uie2bitstore(i)", "        self._bitstore = bitstore_helpers.uie2bitstore(i)", ['E9'])
+V('HASH_bitarray_hashable', ['C13'], 'bitarray_.py', "    __hash__: None = None\n", "    __hash__ = Bits.__hash__\n", ['HASH'])
+V('HASH_constbitstream_eq_only', ['C13'], 'bitstream.py', "    def __repr__(self) -> str:\n", "    def __eq__(self, bs: Any, /) -> bool:\n        return Bits.__eq__(self, bs)\n\n    def __repr__(self) -> str:\n", ['HASH'])
+V('D3_eq_typeerror_escapes', ['C13', 'C20'], 'bits.py', "        try:\n            return self._bitstore == Bits._create_from_bitstype(bs)._bitstore\n        except TypeError:\n            return False", "        return self._bitstore == Bits._create_from_bitstype(bs)._bitstore", ['D3'])
+V('D3_ne_not_negation', ['C13'], 'bits.py', "        return not self.__eq__(bs)", "        return self._bitstore != Bits._create_from_bitstype(bs)._bitstore", ['D3'])
+V('L_frombuffer_keeps_whole_file', ['C08', 'C13', 'C16', 'C17'], 'bitstore.py', "            x._bitarray = bitarray.bitarray(x._bitarray[:x.modified_length])\n            x.modified_length = None\n", "", ['L'])
+V('E10_extend_ignores_itemsize', ['C18'], 'array_.py', "            other_dtype = dtype_register.get_dtype(name_value[0], iterable.itemsize * 8, scale=None)", "            other_dtype = dtype_register.get_dtype(*name_value, scale=None)", ['E10'])
+S('C_S_shift_dtypes', ['C06', 'C10', 'C09'], 'dtypes.py', fn=shift_lines)
